@@ -78,6 +78,10 @@ def main():
         elif st == "known_finding":
             for what in r.get("findings", []):
                 print(f"KNOWN-FINDING: property={prop} {what}")
+        elif st == "unknown" and args.tier == "thorough":
+            # thorough tier: a query the solver did not decide within its limits is reported as inconclusive (here and in
+            # the evidence: it is not counted as discharged); it is neither a pass nor an alarm
+            print(f"INCONCLUSIVE property={prop} {r.get('query')} {r.get('check')}: {r.get('reason') or 'solver limit reached'}")
         elif st in ("mismatch", "error", "vacuous", "unknown"):
             if st == "error":
                 print("   ", r.get("error"), r.get("trace", ""))
